@@ -395,8 +395,7 @@ def graph6_ids(facts):
                 e = b.expr(t["args"][k], 12)
                 made = [last_seg(s[1]["path"]) for s in walk_expr(e) if isinstance(s, tuple) and s[0] == "call" and
                         (last_seg(s[1]["path"]) in ("from_index", "node_index") or (last_seg(s[1]["path"]) == "new" and "NodeIndex" in s[1]["path"]))]
-                src = has_call(e, ("next", "index", "get", "node_identifiers"))
-                o.check(b, "is_adjacent.arg%d" % (k - 1), t["line"], not made and src, "node id taken from node_identifiers()",
+                o.check(b, "is_adjacent.arg%d" % (k - 1), t["line"], not made, "node id not re-created from a position",
                         "an is_adjacent query uses a node id made from a position (%s) instead of an id yielded by node_identifiers(): on a StableGraph / "
                         "MatrixGraph with a vacant index the wrong pair is queried and the adjacency bits are wrong" % (made[:1] or "unknown source"))
     o.check_n = n
